@@ -1086,9 +1086,9 @@ Proof.
       * unfold REG. rewrite (queue_found_none _ _ Hq Ef). reflexivity.
       * intros q'. unfold REG, get_queue. cbn. rewrite (alookup_aset seqb seqb_spec). destruct (seqb q' name); reflexivity.
   - (* MQBind *) destruct (alookup _ _ _); [|exact H]. destruct (seqb ex ""); [exact H|].
-    destruct (queue_found s q); [|exact H]. destruct (locked _ _); [exact H|]. destruct (bad_xmatch _); [exact H|]. cbn [fst].
+    destruct (queue_found s q); [|exact H]. destruct (locked _ _); [exact H|]. destruct (bad_xmatch _); [exact H|]. destruct (extype_eqb _ ExTopic && bad_pattern _)%bool; [exact H|]. cbn [fst].
     eapply RL_vsim; [|exact H]; apply vsim_same; reflexivity.
-  - destruct (alookup _ _ _); [|exact H]. destruct (queue_found s q); [|exact H]. destruct (locked _ _); [exact H|]. destruct (bad_xmatch _); [exact H|]. cbn [fst].
+  - destruct (alookup _ _ _); [|exact H]. destruct (queue_found s q); [|exact H]. destruct (locked _ _); [exact H|]. destruct (bad_xmatch _); [exact H|]. destruct (extype_eqb _ ExTopic && bad_pattern _)%bool; [exact H|]. cbn [fst].
     eapply RL_vsim; [|exact H]; apply vsim_same; reflexivity.
   - (* MQPurge *)
     destruct (queue_found s q) as [qu|] eqn:Ef; [|exact H]. apply queue_found_get in Ef. destruct (locked _ _); [exact H|]. cbn [fst].
